@@ -673,6 +673,139 @@ fn par_has_two(t: &Tree) -> bool {
     }
 }
 
+
+// zero-sized leaf systems (unit structs): a tree of them is itself zero-sized
+#[derive(Default)]
+pub struct ZN;
+#[derive(Default)]
+pub struct ZR;
+#[derive(Default)]
+pub struct ZW;
+impl<'a> shred::System<'a> for ZN {
+    type SystemData = ();
+    fn run(&mut self, _: ()) {}
+}
+impl<'a> shred::System<'a> for ZR {
+    type SystemData = shred::Read<'a, crate::hsys::Cell1>;
+    fn run(&mut self, _: Self::SystemData) {}
+}
+impl<'a> shred::System<'a> for ZW {
+    type SystemData = shred::Write<'a, crate::hsys::Cell1>;
+    fn run(&mut self, _: Self::SystemData) {}
+}
+pub trait ZLeaf: Default + Send + for<'a> RunWithPool<'a> + 'static {
+    /// (reads C, writes C)
+    const ACC: (bool, bool);
+    const NAME: &'static str;
+}
+impl ZLeaf for ZN {
+    const ACC: (bool, bool) = (false, false);
+    const NAME: &'static str = "unit()";
+}
+impl ZLeaf for ZR {
+    const ACC: (bool, bool) = (true, false);
+    const NAME: &'static str = "unit(Read<C>)";
+}
+impl ZLeaf for ZW {
+    const ACC: (bool, bool) = (false, true);
+    const NAME: &'static str = "unit(Write<C>)";
+}
+
+/// par[a, b, c], seq[a, b, c] and par[seq[a, b], c] of zero-sized leaves: reported access and conflict check
+fn ztriple<A: ZLeaf, B: ZLeaf, C: ZLeaf>(col: &mut Collector) -> (u64, u64) {
+    let c_id = concrete_id(2);
+    let conf = |x: (bool, bool), y: (bool, bool)| (x.1 && (y.0 || y.1)) || (x.0 && y.1);
+    let label = format!("{}, {}, {}", A::NAME, B::NAME, C::NAME);
+    let mut panics = 0;
+    let report = |what: &str, expect: bool, got: bool, col: &mut Collector| {
+        if expect != got {
+            col.add(Finding {
+                prop: "C16".into(),
+                sig: if expect { "par-with-accepted-conflict".into() } else { "par-with-rejected-compatible-children".into() },
+                msg: format!("{} of zero-sized leaves [{}] {} but the access sets {}", what, label, if got { "panicked" } else { "did not panic" }, if expect { "conflict" } else { "are compatible" }),
+                replay: json!({"kind":"par-with-zero-sized","leaves":label}),
+                size: 3,
+            });
+        }
+    };
+    // seq[a, b, c]: union as sets
+    {
+        let sq = Seq::new(A::default()).with(B::default()).with(C::default());
+        let (mut rr, mut ww) = (Vec::new(), Vec::new());
+        RunWithPool::reads(&sq, &mut rr);
+        RunWithPool::writes(&sq, &mut ww);
+        let want_r = A::ACC.0 || B::ACC.0 || C::ACC.0;
+        let want_w = A::ACC.1 || B::ACC.1 || C::ACC.1;
+        if rr.contains(&c_id) != want_r || ww.contains(&c_id) != want_w {
+            col.add(Finding {
+                prop: "C16".into(),
+                sig: "root-access-not-union".into(),
+                msg: format!("seq of zero-sized leaves [{}] reports reads {} / writes {} of C, the leaves' data access says {} / {}", label, rr.contains(&c_id), ww.contains(&c_id), want_r, want_w),
+                replay: json!({"kind":"par-with-zero-sized","leaves":label}),
+                size: 3,
+            });
+        }
+    }
+    let any = conf(A::ACC, B::ACC) || conf(A::ACC, C::ACC) || conf(B::ACC, C::ACC);
+    let r = catch_unwind(AssertUnwindSafe(|| {
+        let _ = Par::new(A::default()).with(B::default()).with(C::default());
+    }));
+    panics += r.is_err() as u64;
+    report("par[a, b, c]", any, r.is_err(), col);
+    let u = (A::ACC.0 || B::ACC.0, A::ACC.1 || B::ACC.1);
+    let r = catch_unwind(AssertUnwindSafe(|| {
+        let _ = Par::new(Seq::new(A::default()).with(B::default())).with(C::default());
+    }));
+    panics += r.is_err() as u64;
+    report("par[seq[a, b], c]", conf(u, C::ACC), r.is_err(), col);
+    let r = catch_unwind(AssertUnwindSafe(|| {
+        let _ = Par::new(C::default()).with(Seq::new(A::default()).with(B::default()));
+    }));
+    panics += r.is_err() as u64;
+    report("par[c, seq[a, b]]", conf(u, C::ACC), r.is_err(), col);
+    (4, panics)
+}
+
+fn zero_sized_sweep(col: &mut Collector) -> (u64, u64) {
+    let (mut cases, mut panics) = (0, 0);
+    for i in 0..27u32 {
+        let (a, b, c) = (i / 9, (i / 3) % 3, i % 3);
+        let (x, y) = match (a, b, c) {
+            (0, 0, 0) => ztriple::<ZN, ZN, ZN>(col),
+            (0, 0, 1) => ztriple::<ZN, ZN, ZR>(col),
+            (0, 0, 2) => ztriple::<ZN, ZN, ZW>(col),
+            (0, 1, 0) => ztriple::<ZN, ZR, ZN>(col),
+            (0, 1, 1) => ztriple::<ZN, ZR, ZR>(col),
+            (0, 1, 2) => ztriple::<ZN, ZR, ZW>(col),
+            (0, 2, 0) => ztriple::<ZN, ZW, ZN>(col),
+            (0, 2, 1) => ztriple::<ZN, ZW, ZR>(col),
+            (0, 2, 2) => ztriple::<ZN, ZW, ZW>(col),
+            (1, 0, 0) => ztriple::<ZR, ZN, ZN>(col),
+            (1, 0, 1) => ztriple::<ZR, ZN, ZR>(col),
+            (1, 0, 2) => ztriple::<ZR, ZN, ZW>(col),
+            (1, 1, 0) => ztriple::<ZR, ZR, ZN>(col),
+            (1, 1, 1) => ztriple::<ZR, ZR, ZR>(col),
+            (1, 1, 2) => ztriple::<ZR, ZR, ZW>(col),
+            (1, 2, 0) => ztriple::<ZR, ZW, ZN>(col),
+            (1, 2, 1) => ztriple::<ZR, ZW, ZR>(col),
+            (1, 2, 2) => ztriple::<ZR, ZW, ZW>(col),
+            (2, 0, 0) => ztriple::<ZW, ZN, ZN>(col),
+            (2, 0, 1) => ztriple::<ZW, ZN, ZR>(col),
+            (2, 0, 2) => ztriple::<ZW, ZN, ZW>(col),
+            (2, 1, 0) => ztriple::<ZW, ZR, ZN>(col),
+            (2, 1, 1) => ztriple::<ZW, ZR, ZR>(col),
+            (2, 1, 2) => ztriple::<ZW, ZR, ZW>(col),
+            (2, 2, 0) => ztriple::<ZW, ZW, ZN>(col),
+            (2, 2, 1) => ztriple::<ZW, ZW, ZR>(col),
+            (2, 2, 2) => ztriple::<ZW, ZW, ZW>(col),
+            _ => unreachable!(),
+        };
+        cases += x;
+        panics += y;
+    }
+    (cases, panics)
+}
+
 /// Static part: `Par::with` (debug assertions on) panics exactly when the new
 /// child conflicts with the children already there.
 pub fn check_par_with(alpha: &[(Vec<u8>, Vec<u8>)], col: &mut Collector) -> (u64, u64) {
@@ -824,6 +957,11 @@ pub fn check_par_with(alpha: &[(Vec<u8>, Vec<u8>)], col: &mut Collector) -> (u64
                 }
             }
         }
+    }
+    {
+        let (x, y) = zero_sized_sweep(col);
+        cases += x;
+        panics += y;
     }
     // long access lists: the contested resource sits behind n entries naming an unrelated resource, either in
     // one leaf's declared list (duplicates are legal) or spread over the leaves of a seq child
